@@ -1,10 +1,12 @@
 (* C02 - Readings of closed candles are final: no look-ahead, no repainting.
-   Same scope as C01 (leaf indicators on the base timeframe; obligations discharged for HLA,
-   TR, OBV, EMA): the store after any further appends extends the store before them, and a
-   batch over a longer list gives the shorter list's readings on the shorter list's candles. *)
+   Same scope as C01 (leaf indicators; obligations discharged in Props/C01.v for HLA, TR, OBV,
+   EMA, SMA, RMA, WMA, ROC, Counter and every Amorph-wrapped analysis function): the store
+   after any further appends extends the store before them, a batch over a longer list gives
+   the shorter list's readings on the shorter list's candles, and on a collapsing timeframe
+   every closed bucket keeps its readings when more candles arrive. *)
 From Coq Require Import ZArith List String Bool.
 From Hexital Require Import Base.Prelude Base.Num Model.Manager Model.Candle Model.Readings Model.Engine
-  Proofs.EngineProofs Proofs.CausalProofs.
+  Proofs.EngineProofs Proofs.CausalProofs Proofs.ComposeProofs.
 Import ListNotations.
 Local Open Scope Z_scope.
 
@@ -43,3 +45,15 @@ Proof.
   destruct (canon_acc_iscanon O I calc new cs r Hcs Hf H) as [_ Htl]. exact Htl.
 Qed.
 Print Assumptions C02_append_never_repaints_leaf.
+
+(* collapsing timeframe: D is the indicator's state after the raw stream xs, D' after
+   xs ++ ys.  Every bucket of D except the last - the only one that can still take in
+   candles - appears unchanged, readings included, at the same position in D' *)
+Theorem C02_closed_buckets_final :
+  forall (O : NumOps) (I : ind O) (calc : store O -> Z -> res (val O)),
+  forall (tf : Z) (xs ys : list (cd (payload O))) (D D' : store O), 0 < tf ->
+  canon O I calc (resample (payload O) (Candle.merge O) tf xs) = Ok D ->
+  canon O I calc (resample (payload O) (Candle.merge O) tf (xs ++ ys)) = Ok D' ->
+  exists tl, D' = removelast D ++ tl.
+Proof. intros O I calc tf xs ys D D' Htf HD HD'. eapply closed_buckets_final; eassumption. Qed.
+Print Assumptions C02_closed_buckets_final.
